@@ -1,6 +1,5 @@
 import Mathlib.Tactic.Ring
 import Mathlib.Tactic.FieldSimp
-import Mathlib.Tactic.LinearCombination
 import Mathlib.Tactic.NormNum
 import TfelVerif.C22.Gen
 namespace TfelVerif.C22.Props
@@ -8,12 +7,7 @@ open TfelVerif TfelVerif.C22
 variable {K : Type} [Field K] (c c3 : K) (fn : Fns K)
 set_option maxRecDepth 100000
 set_option profiler true
-set_option profiler.threshold 1000
-
-macro "unfold_eval" : tactic => `(tactic| simp only [eval, evalD, dir, Int.cast_ofNat, Int.cast_one, Int.cast_zero,
-  Int.cast_neg, Nat.cast_ofNat, Nat.cast_one, Nat.cast_zero, Nat.reduceEqDiff, OfNat.ofNat_ne_zero, OfNat.zero_ne_ofNat,
-  one_ne_zero, zero_ne_one, ↓reduceIte, if_true, if_false, mul_zero, zero_mul, mul_one, one_mul, add_zero, zero_add, sub_zero,
-  zero_sub, neg_zero, zero_div, Nat.reduceSub, pow_one, pow_zero])
+set_option profiler.threshold 2000
 
 theorem Dr_N1_normal (ρ : Nat → K) :
     match Gen.Dr_N1_v.all, Gen.Dr_N1_n.all with
@@ -27,10 +21,8 @@ theorem Dr_N1_normal (ρ : Nat → K) :
   refine ⟨?_, ?_, ?_, ?_⟩
   · simp only [eval]
     ring_nf
-  · simp only [eval, evalD]
+  all_goals
+    simp only [eval, evalD]
     simp only [dir, Nat.reduceEqDiff, ↓reduceIte]
-    trace_state
-    sorry
-  · sorry
-  · sorry
+    ring_nf
 end TfelVerif.C22.Props
